@@ -157,6 +157,11 @@ def known_lines(rep, pid):
             print('note: listed finding no longer reproduces: %s' % e['what'])
 
 
+def slow_factor(sh):
+    """nested loops multiply the work per path (every back edge is resolved for every read)"""
+    return 5 if sh.name.startswith('nested_loops') else 1
+
+
 def run(pid, tier, seed, explanation, functions, bounds, assumptions, level='other', custom=None, extra=None):
     rep = Report(pid, tier, seed, level)
     runner.workdir(pid)
@@ -168,7 +173,7 @@ def run(pid, tier, seed, explanation, functions, bounds, assumptions, level='oth
     bicap = MAX_BI_THOROUGH if tier == 'thorough' else MAX_BI_QUICK
     for sh in shapes:
         n = len(sh.groups)
-        timeout = (40 if n <= 4 else 90 if n == 5 else 300) * (1 if tier == 'quick' else 2)
+        timeout = (40 if n <= 4 else 90 if n == 5 else 300) * (1 if tier == 'quick' else 2) * slow_factor(sh)
         qs.append(Query(sh.name, harness_src(sh, pid), 'check', 'main', timeout, per_path=30,
                         meta={'shape': sh.name}, label='S'))
         if n <= bicap:
